@@ -60,13 +60,9 @@ func TestVerifC20Concurrent(t *testing.T) {
 			return
 		}
 		if i == 0 {
-			for _, e := range kit.List(one["templates"]) {
-				d := e.(map[string]any)
-				class := kit.Str(d["why"])
-				if kit.Bool(d["valid"]) {
-					class = kit.Str(d["gs"]) + "/" + kit.Str(d["ds"])
-				}
-				tpls = append(tpls, c20Template{text: c20Text(d["t"]), class: class})
+			if tpls, err = c20Header(one); err != nil {
+				infra(err.Error())
+				return
 			}
 			continue
 		}
@@ -152,7 +148,7 @@ func TestVerifC20Concurrent(t *testing.T) {
 						got := c20Name(tpls[k].text, id)
 						local[3]++
 						want := c.want[k]
-						where := fmt.Sprintf("FileNamingFormat(%q, %q)", tpls[k].text, id)
+						where := c20Where(tpls[k].text, id)
 						switch {
 						case got.panic != "":
 							fail(c, "name:panic", fmt.Sprintf("%s panicked: %s", where, got.panic))
